@@ -15,6 +15,7 @@ case "$PROP" in
   C32) ENGINE=sim_generator; SET=plain ;;
   C34) ENGINE=sim_serialize; SET=plain; DUAL=1 ;;
   C05) ENGINE=sim_load; SET=a; DUAL=1 ;;
+  C21) ENGINE=sim_extdata; SET=plain ;;
   *) echo "HARNESS-ERROR: no engine for property $PROP" >&2; exit 2 ;;
 esac
 TDIR="$ROOT/target/$SET"
